@@ -159,6 +159,21 @@ enum Sent {
     Other(String),
 }
 
+/// the miniwasm token-factory messages, written from miniwasm/tokenfactory/v1/tx.proto (independent of the repo's bindings)
+mod mw {
+    #[derive(Clone, PartialEq, ::prost::Message)]
+    pub struct Coin { #[prost(string, tag = "1")] pub denom: String, #[prost(string, tag = "2")] pub amount: String }
+    #[derive(Clone, PartialEq, ::prost::Message)]
+    pub struct MsgCreateDenom { #[prost(string, tag = "1")] pub sender: String, #[prost(string, tag = "2")] pub subdenom: String }
+    #[derive(Clone, PartialEq, ::prost::Message)]
+    pub struct MsgMint { #[prost(string, tag = "1")] pub sender: String, #[prost(message, optional, tag = "2")] pub amount: Option<Coin>, #[prost(string, tag = "3")] pub mint_to_address: String }
+    #[derive(Clone, PartialEq, ::prost::Message)]
+    pub struct MsgBurn { #[prost(string, tag = "1")] pub sender: String, #[prost(message, optional, tag = "2")] pub amount: Option<Coin> }
+}
+
+/// the token-factory module of the chain this build targets
+const TF: &str = if cfg!(feature = "miniwasm") { "/miniwasm.tokenfactory.v1." } else { "/osmosis.tokenfactory.v1beta1." };
+
 fn decode(resp: &Response) -> Vec<Sent> {
     use osmosis_std::types::cosmos::bank::v1beta1::MsgSend;
     use osmosis_std::types::cosmwasm::wasm::v1::MsgExecuteContract;
@@ -168,16 +183,24 @@ fn decode(resp: &Response) -> Vec<Sent> {
     for sm in &resp.messages {
         out.push(match &sm.msg {
             CosmosMsg::Stargate { type_url, value } => match type_url.as_str() {
-                "/osmosis.tokenfactory.v1beta1.MsgMint" => {
+                "/osmosis.tokenfactory.v1beta1.MsgMint" if !cfg!(feature = "miniwasm") => {
                     let m = MsgMint::decode(value.as_slice()).unwrap();
                     let c = m.amount.unwrap();
                     Sent::Mint { amount: c.amount, denom: c.denom, to: m.mint_to_address }
                 }
-                "/osmosis.tokenfactory.v1beta1.MsgBurn" => {
+                "/osmosis.tokenfactory.v1beta1.MsgBurn" if !cfg!(feature = "miniwasm") => {
                     let m = MsgBurn::decode(value.as_slice()).unwrap();
                     let c = m.amount.unwrap();
                     Sent::Burn { amount: c.amount, denom: c.denom }
                 }
+                "/miniwasm.tokenfactory.v1.MsgMint" => match mw::MsgMint::decode(value.as_slice()) {
+                    Ok(m) if m.encode_to_vec() == value.as_slice() && m.amount.is_some() && m.sender == mock_env().contract.address.as_str() => { let c = m.amount.unwrap(); Sent::Mint { amount: c.amount, denom: c.denom, to: m.mint_to_address } }
+                    other => Sent::Other(format!("token-factory mint message is not the canonical encoding of a MsgMint by the contract: {other:?}")),
+                },
+                "/miniwasm.tokenfactory.v1.MsgBurn" => match mw::MsgBurn::decode(value.as_slice()) {
+                    Ok(m) if m.encode_to_vec() == value.as_slice() && m.amount.is_some() && m.sender == mock_env().contract.address.as_str() => { let c = m.amount.unwrap(); Sent::Burn { amount: c.amount, denom: c.denom } }
+                    other => Sent::Other(format!("token-factory burn message is not the canonical encoding of a MsgBurn by the contract: {other:?}")),
+                },
                 "/ibc.applications.transfer.v1.MsgTransfer" => {
                     let m = MsgTransfer::decode(value.as_slice()).unwrap();
                     let c = m.token.unwrap();
@@ -297,7 +320,8 @@ fn fam_stake(r: &mut Rng) -> Result<(), String> {
             if st.total_reward_amount != before.total_reward_amount { errs.push(format!("reward counter changed; {ctx}")); }
             let sent = decode(&resp);
             let mints: Vec<_> = sent.iter().filter_map(|x| if let Sent::Mint { amount, .. } = x { Some(amount.clone()) } else { None }).collect();
-            if mints != vec![m.to_string()] { errs.push(format!("mint messages {mints:?}, expected exactly one of {m}; {ctx}")); }
+            let notes: Vec<&String> = sent.iter().filter_map(|x| if let Sent::Other(t) = x { if t.starts_with("token-factory") { Some(t) } else { None } } else { None }).collect();
+            if mints != vec![m.to_string()] { errs.push(format!("mint messages {mints:?} (module {TF}), expected exactly one of {m} {notes:?}; {ctx}")); }
             let to_staker: Vec<_> = sent.iter().filter_map(|x| if let Sent::Transfer { amount, denom, receiver, .. } = x { if receiver == STAKER { Some((amount.clone(), denom.clone())) } else { None } } else { None }).collect();
             if to_staker != vec![(amount.to_string(), IBC_DENOM.to_string())] { errs.push(format!("transfers to the staker {to_staker:?}, expected one of {amount} staked asset; {ctx}")); }
             let rcpt = mint_to.clone().unwrap_or(USER.to_string());
@@ -408,7 +432,8 @@ fn fam_batch(r: &mut Rng) -> Result<(), String> {
     if st.total_native_token.u128() != s.tn - u || st.total_liquid_stake_token.u128() != s.tl - total { errs.push(format!("totals after submit {} / {} expected {} / {}; {ctx}", st.total_native_token, st.total_liquid_stake_token, s.tn - u, s.tl - total)); }
     let sent = decode(&resp);
     let burns: Vec<_> = sent.iter().filter_map(|x| if let Sent::Burn { amount, .. } = x { Some(amount.clone()) } else { None }).collect();
-    if burns != vec![total.to_string()] { errs.push(format!("burn messages {burns:?}, expected {total}; {ctx}")); }
+    let notes: Vec<&String> = sent.iter().filter_map(|x| if let Sent::Other(t) = x { if t.starts_with("token-factory") { Some(t) } else { None } } else { None }).collect();
+    if burns != vec![total.to_string()] { errs.push(format!("burn messages {burns:?} (module {TF}), expected {total} {notes:?}; {ctx}")); }
     if let Err(e) = check_oracle(&s, &sent, &deps) { errs.push(format!("{e} (SubmitBatch); {ctx}")); }
     let b1 = BATCHES.load(&deps.storage, 1).unwrap();
     if b1.expected_native_unstaked != Some(Uint128::new(u)) { errs.push(format!("expected amount {:?} != {u}; {ctx}", b1.expected_native_unstaked)); }
@@ -1500,7 +1525,9 @@ fn fam_instantiate(r: &mut Rng) -> Result<(), String> {
     let b = BATCHES.load(&deps.storage, p).unwrap();
     if p != 1 || b.next_batch_action_time != Some(t0 + period) || !b.batch_total_liquid_stake.is_zero() { return Err(format!("new pending batch {p} due {:?} at instantiation, expected id 1 due {}", b.next_batch_action_time, t0 + period)); }
     let created: Vec<(String, String)> = resp.messages.iter().filter_map(|m| match &m.msg {
-        CosmosMsg::Stargate { type_url, value } if type_url == "/osmosis.tokenfactory.v1beta1.MsgCreateDenom" => { let d = MsgCreateDenom::decode(value.as_slice()).unwrap(); Some((d.sender, d.subdenom)) }
+        CosmosMsg::Stargate { type_url, value } if *type_url == format!("{TF}MsgCreateDenom") => {
+            if cfg!(feature = "miniwasm") { let d = mw::MsgCreateDenom::decode(value.as_slice()).unwrap(); if d.encode_to_vec() != value.as_slice() { return None; } Some((d.sender, d.subdenom)) }
+            else { let d = MsgCreateDenom::decode(value.as_slice()).unwrap(); Some((d.sender, d.subdenom)) } }
         _ => None }).collect();
     if created != vec![(contract.clone(), "umilkTIA".to_string())] { return Err(format!("instantiate emitted create-denom messages {created:?}, expected one by the contract for sub-denom umilkTIA (mint messages would name a denom that was never created)")); }
     // the instantiating account is the admin; nobody else is
